@@ -41,8 +41,11 @@ CHECKS = {
         "logs, current store, buffered events, hence views and all further results), C03_hash_chain (every reachable history "
         "links previous-hash to the predecessor's hash), C03_hash_is_a_function, for every instantiation of the engine; model "
         "executed in Coq on recorded play tables for random and small-depth exhaustive exec/rollback words.",
-   note="Trusted as C01. 'A hash locates its log' depends on sha1 collision-freeness: tested on the implementation "
-        "(get_hash_index on every history), not proved.",
+   note="Trusted as C01. 'A hash locates its log' is proved (C03_hash_locates_its_log, C03_hash_index_sound, "
+        "C03_unknown_hash_is_refused in Props/C03_history.v) about the get_hash_index GENERATED from policy/base.py by "
+        "tools/tr_history.py, under the stated hypotheses on sha1 (injective in the previous hash; '' is not a digest); the same "
+        "translator regenerates commit / discard_after / _last_playlog / last_events / _current_ckpt and C03_src_* prove them equal "
+        "to the definitions of the engine model.",
    technique="Coq proof (induction over step lists) over the engine model + trace-driven correspondence",
    design="7 C03"),
  "C04": dict(
